@@ -1,4 +1,5 @@
 #!/bin/bash
+export GOVC_EVIDENCE_DIR=/tmp/govc-seed-evidence
 if [ -n "$(git -C /repo status --porcelain)" ]; then echo "refusing: /repo has uncommitted changes (they would be reverted)"; exit 2; fi
 # usage: seed_confirm.sh <property> <scratch-worktree> <N> <seed-id> [<mutant-dir>]   (mutant-dir defaults to <scratch-worktree>/mutants/<N>)
 # Confirms a sub-agent's mutant in the scratch worktree (builds, suite passes, demo fails with / passes without),
